@@ -545,6 +545,8 @@ func checkMain(args []string) int {
 	seenKey := map[string]bool{}
 	var witnesses []witnessItem
 	knownInstances := map[string][]string{}
+	crossChecked, crossUnknown := 0, 0
+	var crossDisagree []string
 	if os.Getenv("GOSYM_VERBOSE") != "" {
 		for _, r := range results {
 			if r != nil {
@@ -571,6 +573,11 @@ func checkMain(args []string) int {
 		}
 		for _, f := range r.Funcs {
 			funcs[f] = true
+		}
+		crossChecked += r.CrossChecked
+		crossUnknown += r.CrossUnknown
+		for _, d := range r.CrossDisagree {
+			crossDisagree = append(crossDisagree, fmt.Sprintf("%s%v: %s", r.Job.Harness, r.Job.Args, d))
 		}
 		for k, n := range r.Unsupported {
 			unsupported[k] += n
@@ -798,6 +805,7 @@ func checkMain(args []string) int {
 			"counterexamples_replayed":      nReplayed,
 			"encoding_discrepancies":        discrepancies,
 			"known_finding_instances":       knownInstances,
+			"second_solver":                 map[string]any{"solver": "cvc5 1.0 (--incremental)", "unsat_verdicts_rechecked": crossChecked, "agreed": crossChecked - crossUnknown - len(crossDisagree), "unknown_or_timeout": crossUnknown, "disagreements": crossDisagree, "sampling": "first non-trivial obligation of each job, then every 128th; 2 s per query"},
 			"witnesses_replayed":            nWitness,
 			"witness_mismatches":            witnessBad,
 			"known_findings_matched":        nKnown,
@@ -832,6 +840,12 @@ func checkMain(args []string) int {
 	}
 	if len(vacuous) > 0 {
 		fmt.Println("BROKEN-CHECK vacuous harnesses (no path reaches the end):", strings.Join(vacuous, " "))
+		return 2
+	}
+	if len(crossDisagree) > 0 {
+		for _, d := range crossDisagree {
+			fmt.Println("BROKEN-CHECK solver disagreement (z3 unsat, cvc5 sat):", d)
+		}
 		return 2
 	}
 	if nWitnessBad > 0 {
